@@ -115,8 +115,49 @@ class C16(Property):
             pt.append(g[i] + rng.choice(FRACS) * (g[i + 1] - g[i]))
         return pt
 
+    def far_points(self, rng, grids, count, nvec):
+        """`count` batches of `nvec` points; consecutive batches sit in different regions of the table
+        (different stencils), so anything cached by one evaluation is stale for the next."""
+        out = []
+        prev = None
+        for _ in range(count):
+            batch = []
+            for v in range(nvec):
+                pt = []
+                for d, g in enumerate(grids):
+                    n = len(g) - 1
+                    i = rng.randrange(n)
+                    if prev is not None and n > 1:
+                        # as far as the table allows from the previous evaluation of this vec row
+                        i = (prev[v][d] + max(1, n // 2) + rng.randrange(2)) % n
+                    pt.append((i, g[i] + rng.choice(FRACS) * (g[i + 1] - g[i])))
+                batch.append(pt)
+            prev = [[c[0] for c in pt] for pt in batch]
+            out.append([[c[1] for c in pt] for pt in batch])
+        return out
+
+    def seq_case(self, rng, method=None, ndim=None):
+        """Several evaluations on ONE MetaModelStructuredComp with training_data_gradients."""
+        ndim = ndim or rng.choice([1, 2, 2, 3])
+        method = method or rng.choice(GENERAL)
+        grids, vals = self.gen_table(rng, method, ndim)
+        if ndim == 3:
+            grids = [g[:5] for g in grids]
+            vals = [rng.randint(-2000, 2000) / 64.0 for _ in node_iter([len(g) for g in grids])]
+        nvec = rng.choice([1, 1, 2])
+        batches = self.far_points(rng, grids, rng.choice([2, 3]), nvec)
+        return {'kind': 'mmsc', 'method': method, 'grids': [rats(g) for g in grids], 'values': rats(vals),
+                'pts': [rats(p) for p in batches[0]], 'seq': [[rats(p) for p in b] for b in batches[1:]],
+                'train_grad': True}
+
     def cases(self, rng, tier):
-        n = 260 if tier == 'quick' else 4000
+        # head of the stream: derivative w.r.t. the table over several evaluations on one component,
+        # every method that supports training_data_gradients, 1-3 dimensions
+        for method in GENERAL:
+            for ndim in ((1, 2) if tier == 'quick' else (1, 2, 3)):
+                yield self.seq_case(rng, method, ndim)
+        yield self.seq_case(rng, 'akima', 3)
+        n = 230 if tier == 'quick' else 4000
         for _ in range(n):
             kind = rng.choice(['interp_dx', 'interp_dx', 'interp_dx', 'train', 'mmsc', 'mmsc', 'spline',
                                'spline'])
@@ -126,20 +167,29 @@ class C16(Property):
                 grids, vals = self.gen_table(rng, method, ndim)
                 pts = [self.gen_point(rng, grids) for _ in range(rng.choice([1, 1, 2, 3]))]
                 vals2 = [rng.randint(-2000, 2000) / 64.0 for _ in vals]
-                yield {'kind': kind, 'method': method, 'grids': [rats(g) for g in grids],
-                       'values': rats(vals), 'values2': rats(vals2), 'a': rat(rng.choice([2, -3, 0.5, 1.5])),
-                       'pts': [rats(p) for p in pts]}
+                c = {'kind': kind, 'method': method, 'grids': [rats(g) for g in grids],
+                     'values': rats(vals), 'values2': rats(vals2), 'a': rat(rng.choice([2, -3, 0.5, 1.5])),
+                     'pts': [rats(p) for p in pts]}
+                if rng.random() < 0.4:      # later calls on the same InterpND
+                    more = self.far_points(rng, grids, rng.choice([1, 2]), rng.choice([1, 2]))
+                    c['seq'] = [[rats(p) for p in b] for b in more]
+                yield c
             elif kind == 'train':
                 ndim = rng.choice([1, 2, 2, 3])
                 method = rng.choice(LINEAR)
                 grids, vals = self.gen_table(rng, method, ndim)
+                npt = rng.choice([1, 2, 3])
+                pts = [b[0] for b in self.far_points(rng, grids, npt, 1)]
                 yield {'kind': kind, 'method': method, 'grids': [rats(g) for g in grids],
-                       'values': rats(vals), 'pts': [rats(self.gen_point(rng, grids))]}
+                       'values': rats(vals), 'pts': [rats(q) for q in pts]}
             elif kind == 'mmsc':
                 ndim = rng.choice([1, 2, 2, 3])
                 tg = rng.random() < 0.6
                 method = rng.choice(GENERAL) if (tg or rng.random() < 0.5) else rng.choice(FIXED[ndim])
                 grids, vals = self.gen_table(rng, method, ndim)
+                if tg and rng.random() < 0.5 and (ndim < 3 or tier != 'quick'):
+                    yield self.seq_case(rng, method, ndim)
+                    continue
                 pts = [self.gen_point(rng, grids) for _ in range(rng.choice([1, 2]))]
                 yield {'kind': kind, 'method': method, 'grids': [rats(g) for g in grids],
                        'values': rats(vals), 'pts': [rats(p) for p in pts], 'train_grad': tg}
@@ -212,19 +262,31 @@ class C16(Property):
         v, dx = t.interpolate(X, compute_derivative=True)
         v = np.asarray(v, dtype=float).ravel()
         dx = np.asarray(dx, dtype=float).reshape(len(X), len(grids))
-        res = {'v': rats(v.tolist()), 'dx': [rats(r) for r in dx.tolist()], 'fd': []}
-        # one-sided differences of the real code, fresh object per evaluation (no cached state)
-        for p, xrow in zip(case['pts'], X):
-            hs = self.steps(case, p)
-            row = []
-            for j, h in enumerate(hs):
-                def F(s, j=j, xrow=xrow):
-                    y = xrow.copy()
-                    y[j] += s
-                    tt = InterpND(method=method, points=tuple(grids), values=vals)
-                    return float(np.asarray(tt.interpolate(y.reshape(1, -1))).ravel()[0])
-                row.append(list(one_sided(F, h)))
-            res['fd'].append(row)
+        def fd_rows(pts, XX):
+            # one-sided differences of the real code, fresh object per evaluation (no cached state)
+            rows = []
+            for p, xrow in zip(pts, XX):
+                hs = self.steps(case, p)
+                row = []
+                for j, h in enumerate(hs):
+                    def F(s, j=j, xrow=xrow):
+                        y = xrow.copy()
+                        y[j] += s
+                        tt = InterpND(method=method, points=tuple(grids), values=vals)
+                        return float(np.asarray(tt.interpolate(y.reshape(1, -1))).ravel()[0])
+                    row.append(list(one_sided(F, h)))
+                rows.append(row)
+            return rows
+        res = {'v': rats(v.tolist()), 'dx': [rats(r) for r in dx.tolist()], 'fd': fd_rows(case['pts'], X)}
+        seq = []
+        for pts in case.get('seq', []):          # later calls on the SAME InterpND
+            Xk = np.array([[float(unrat(c)) for c in q] for q in pts])
+            vk, dk = t.interpolate(Xk, compute_derivative=True)
+            seq.append({'v': rats(np.asarray(vk, dtype=float).ravel().tolist()),
+                        'dx': [rats(r) for r in np.asarray(dk, dtype=float).reshape(len(Xk), len(grids)).tolist()],
+                        'fd': fd_rows(pts, Xk)})
+        if seq:
+            res['seq'] = seq
         if BASE[method] in LINEAR:
             _, vals2 = self._table(case, 'values2')
             a = float(unrat(case['a']))
@@ -239,20 +301,25 @@ class C16(Property):
         from openmdao.components.interp_util.interp import InterpND
         grids, vals = self._table(case)
         method = case['method']
-        pt = np.array([float(unrat(c)) for c in case['pts'][0]])
-        t = InterpND(method=method, points=tuple(grids), values=vals)
-        w = np.asarray(t.training_gradients(pt), dtype=float).ravel()
-        base = float(np.asarray(InterpND(method=method, points=tuple(grids), values=vals)
-                                .interpolate(pt.reshape(1, -1))).ravel()[0])
-        fdv = []
+        t = InterpND(method=method, points=tuple(grids), values=vals)      # one instance, all points
+        out = []
         flat = vals.ravel()
-        for e in range(flat.size):
-            v2 = flat.copy()
-            v2[e] += 1.0
-            y = InterpND(method=method, points=tuple(grids), values=v2.reshape(vals.shape)) \
-                .interpolate(pt.reshape(1, -1))
-            fdv.append(float(np.asarray(y).ravel()[0]) - base)
-        return {'w': rats(w.tolist()), 'v': rat(base), 'fdv': fdv}
+        for q in case['pts']:
+            pt = np.array([float(unrat(c)) for c in q])
+            w = np.asarray(t.training_gradients(pt), dtype=float).ravel()
+            base = float(np.asarray(InterpND(method=method, points=tuple(grids), values=vals)
+                                    .interpolate(pt.reshape(1, -1))).ravel()[0])
+            fdv = []
+            for e in range(flat.size):
+                v2 = flat.copy()
+                v2[e] += 1.0
+                y = InterpND(method=method, points=tuple(grids), values=v2.reshape(vals.shape)) \
+                    .interpolate(pt.reshape(1, -1))
+                fdv.append(float(np.asarray(y).ravel()[0]) - base)
+            out.append({'w': rats(w.tolist()), 'v': rat(base), 'fdv': fdv})
+        res = dict(out[0])
+        res['more'] = out[1:]
+        return res
 
     def _mmsc_problem(self, case, vals, size):
         import openmdao.api as om
@@ -281,45 +348,58 @@ class C16(Property):
                 p.set_val('f_train', vals if V is None else V)
             p.run_model()
             return np.asarray(p.get_val('f'), dtype=float).ravel().copy()
-        f0 = run(X)
         wrt = ['x%d' % d for d in range(nd)] + (['f_train'] if case['train_grad'] else [])
-        J = p.compute_totals(of=['f'], wrt=wrt)
-        res = {'v': rats(f0.tolist()),
-               'dx': [[float(J['f', 'x%d' % d][k, k]) for d in range(nd)] for k in range(size)]}
-        res['dx'] = [rats(r) for r in res['dx']]
-        res['fd'] = []
-        for k, pnt in enumerate(case['pts']):
-            hs = self.steps(case, pnt)
-            row = []
-            for j, h in enumerate(hs):
-                def F(s, j=j, k=k):
-                    Y = X.copy()
-                    Y[k, j] += s
-                    return float(run(Y)[k])
-                row.append(list(one_sided(F, h)))
-            res['fd'].append(row)
-        if case['train_grad']:
-            Jt = np.asarray(J['f', 'f_train'], dtype=float).reshape(size, -1)
-            res['dv'] = [rats(r) for r in Jt.tolist()]
-            lin = BASE[case['method']] in LINEAR
-            tstep = 1.0 if lin else TV
-            fdv = []
-            flat = vals.ravel()
-            for e in range(flat.size):
-                def F(s, e=e):
-                    v2 = flat.copy()
-                    v2[e] += s
-                    return run(X, v2.reshape(vals.shape))
-                if lin:
-                    d = F(1.0) - f0
-                    fdv.append([[float(x), float(x)] for x in d])
-                else:
-                    f_0, f_p, f_pp, f_m, f_mm = f0, F(tstep), F(2 * tstep), F(-tstep), F(-2 * tstep)
-                    fw = (-3 * f_0 + 4 * f_p - f_pp) / (2 * tstep)
-                    bw = (3 * f_0 - 4 * f_m + f_mm) / (2 * tstep)
-                    fdv.append([[float(a), float(b)] for a, b in zip(fw, bw)])
-            res['fdv'] = fdv          # [entry][point][fwd,bwd]
-            run(X)
+
+        def step(X, pts):
+            """One evaluation on the SAME problem: values, totals right after it, then differences."""
+            f0 = run(X)
+            J = p.compute_totals(of=['f'], wrt=wrt)
+            res = {'v': rats(f0.tolist()),
+                   'dx': [rats([float(J['f', 'x%d' % d][k, k]) for d in range(nd)]) for k in range(size)],
+                   'fd': []}
+            Jt = None
+            if case['train_grad']:
+                Jt = np.array(np.asarray(J['f', 'f_train'], dtype=float).reshape(size, -1))
+                res['dv'] = [rats(r) for r in Jt.tolist()]
+            for k, pnt in enumerate(pts):
+                hs = self.steps(case, pnt)
+                row = []
+                for j, h in enumerate(hs):
+                    def F(s, j=j, k=k):
+                        Y = X.copy()
+                        Y[k, j] += s
+                        return float(run(Y)[k])
+                    row.append(list(one_sided(F, h)))
+                res['fd'].append(row)
+            if case['train_grad']:
+                lin = BASE[case['method']] in LINEAR
+                tstep = 1.0 if lin else TV
+                fdv = []
+                flat = vals.ravel()
+                for e in range(flat.size):
+                    def F(s, e=e):
+                        v2 = flat.copy()
+                        v2[e] += s
+                        return run(X, v2.reshape(vals.shape))
+                    if lin:
+                        d = F(1.0) - f0
+                        fdv.append([[float(x), float(x)] for x in d])
+                    else:
+                        f_p, f_pp, f_m, f_mm = F(tstep), F(2 * tstep), F(-tstep), F(-2 * tstep)
+                        fw = (-3 * f0 + 4 * f_p - f_pp) / (2 * tstep)
+                        bw = (3 * f0 - 4 * f_m + f_mm) / (2 * tstep)
+                        fdv.append([[float(a), float(b)] for a, b in zip(fw, bw)])
+                res['fdv'] = fdv          # [entry][point][fwd,bwd]
+            return res
+        res = step(X, case['pts'])
+        # further evaluations on the same component (cached gradient arrays, last_index, coefficient
+        # caches must not leak from one evaluation into the next)
+        seq = []
+        for pts in case.get('seq', []):
+            Xk = np.array([[float(unrat(c)) for c in q] for q in pts])
+            seq.append(step(Xk, pts))
+        if seq:
+            res['seq'] = seq
         return res
 
     def _impl_spline(self, case):
@@ -387,40 +467,47 @@ class C16(Property):
         scale, dscale = self.scales(case)
         tol = dtol(method)
         if kind in ('interp_dx', 'mmsc'):
-            for k, (drow, frow) in enumerate(zip(impl['dx'], impl['fd'])):
-                for j, (d, (fw, bw)) in enumerate(zip(drow, frow)):
-                    d = float(unrat(d))
-                    if not (close(d, fw, tol, dscale) or close(d, bw, tol, dscale)):
-                        return dict(ctx, what='d_dx_vs_difference', point=case['pts'][k], dim=j, got=d,
-                                    forward=fw, backward=bw)
+            # evaluation 0 and every later evaluation on the same object
+            evals = [(case['pts'], impl)] + list(zip(case.get('seq', []), impl.get('seq', [])))
+            V = [float(unrat(v)) for v in case['values']]
+            for step, (pts, r_) in enumerate(evals):
+                sctx = dict(ctx, evaluation=step, later_evaluation=step > 0)
+                for k, (drow, frow) in enumerate(zip(r_['dx'], r_['fd'])):
+                    for j, (d, (fw, bw)) in enumerate(zip(drow, frow)):
+                        d = float(unrat(d))
+                        if not (close(d, fw, tol, dscale) or close(d, bw, tol, dscale)):
+                            return dict(sctx, what='d_dx_vs_difference', point=pts[k], dim=j, got=d,
+                                        forward=fw, backward=bw)
+                if kind == 'mmsc' and case['train_grad']:
+                    for k, row in enumerate(r_['dv']):
+                        r = [float(unrat(x)) for x in row]
+                        for e, a in enumerate(r):
+                            fw, bw = r_['fdv'][e][k]
+                            s = max(1.0, abs(a))
+                            if not (close(a, fw, 1e-6, s) or close(a, bw, 1e-6, s)):
+                                return dict(sctx, what='d_dvalues_vs_difference', point=pts[k], entry=e,
+                                            got=a, forward=fw, backward=bw)
+                        tot = sum(a * v for a, v in zip(r, V))
+                        if not close(tot, float(unrat(r_['v'][k])), 1e-8, 10 * scale):
+                            return dict(sctx, what='value_not_sum_of_weights', point=pts[k], got=tot,
+                                        value=float(unrat(r_['v'][k])))
             if 'lin' in impl:
                 for a, b in zip(impl['lin']['lhs'], impl['lin']['rhs']):
                     if not close(a, b, 1e-9, 10 * scale):
                         return dict(ctx, what='not_linear_in_values', lhs=a, rhs=b)
         if kind == 'train':
-            w = [float(unrat(x)) for x in impl['w']]
-            if len(w) != len(case['values']):
-                return dict(ctx, what='training_gradient_shape', got=len(w), expected=len(case['values']))
-            for e, (a, b) in enumerate(zip(w, impl['fdv'])):
-                if not close(a, b, 1e-8, max(1.0, abs(a)) * scale):
-                    return dict(ctx, what='d_dvalues_vs_difference', entry=e, got=a, difference=b)
-            tot = sum(a * float(unrat(v)) for a, v in zip(w, case['values']))
-            if not close(tot, float(unrat(impl['v'])), 1e-9, 10 * scale):
-                return dict(ctx, what='value_not_sum_of_weights', got=tot, value=float(unrat(impl['v'])))
-        if kind == 'mmsc' and case['train_grad']:
-            V = [float(unrat(v)) for v in case['values']]
-            for k, row in enumerate(impl['dv']):
-                r = [float(unrat(x)) for x in row]
-                for e, a in enumerate(r):
-                    fw, bw = impl['fdv'][e][k]
-                    s = max(1.0, abs(a))
-                    if not (close(a, fw, 1e-6, s) or close(a, bw, 1e-6, s)):
-                        return dict(ctx, what='d_dvalues_vs_difference', entry=e, got=a, forward=fw,
-                                    backward=bw)
-                tot = sum(a * v for a, v in zip(r, V))
-                if not close(tot, float(unrat(impl['v'][k])), 1e-8, 10 * scale):
-                    return dict(ctx, what='value_not_sum_of_weights', got=tot,
-                                value=float(unrat(impl['v'][k])))
+            for step, r_ in enumerate([impl] + list(impl.get('more', []))):
+                sctx = dict(ctx, evaluation=step, later_evaluation=step > 0)
+                w = [float(unrat(x)) for x in r_['w']]
+                if len(w) != len(case['values']):
+                    return dict(sctx, what='training_gradient_shape', got=len(w),
+                                expected=len(case['values']))
+                for e, (a, b) in enumerate(zip(w, r_['fdv'])):
+                    if not close(a, b, 1e-8, max(1.0, abs(a)) * scale):
+                        return dict(sctx, what='d_dvalues_vs_difference', entry=e, got=a, difference=b)
+                tot = sum(a * float(unrat(v)) for a, v in zip(w, case['values']))
+                if not close(tot, float(unrat(r_['v'])), 1e-9, 10 * scale):
+                    return dict(sctx, what='value_not_sum_of_weights', got=tot, value=float(unrat(r_['v'])))
         if kind == 'spline':
             if impl['cross'] != 0.0:
                 return dict(ctx, what='cross_vec_partials_nonzero', got=impl['cross'])
@@ -446,7 +533,7 @@ class C16(Property):
 
     def signature(self, case, impl, failure):
         return {k: failure[k] for k in ('what', 'kind', 'method', 'err', 'ndim', 'train_grad',
-                                            'vec_eq_ninterp')
+                                            'vec_eq_ninterp', 'later_evaluation')
                 if k in failure}
 
     def bucket(self, case, impl):
@@ -454,6 +541,8 @@ class C16(Property):
                'points=%d' % len(case['pts']), 'impl_error' if 'err' in impl else 'impl_ok']
         if case['kind'] == 'mmsc':
             out.append('train_grad=%s' % case['train_grad'])
+        nev = len(case['pts']) if case['kind'] == 'train' else 1 + len(case.get('seq', []))
+        out.append('evaluations_on_one_object=%d' % nev)
         return out
 
     # -- model -----------------------------------------------------------------------------------
@@ -470,7 +559,8 @@ class C16(Property):
                                  'pt': p, 'dv': True, 'akimaFix': bool(self.akima_fix)})
             return reqs
         want_dv = kind == 'train' or (kind == 'mmsc' and case['train_grad'])
-        for p in case['pts']:
+        allpts = list(case['pts']) + [q for batch in case.get('seq', []) for q in batch]
+        for p in allpts:
             reqs.append({'op': 'grad', 'method': base, 'grids': case['grids'], 'values': case['values'],
                          'pt': p, 'dv': want_dv, 'akimaFix': bool(self.akima_fix)})
         return reqs
@@ -483,31 +573,38 @@ class C16(Property):
         def f(x):
             return float(unrat(x))
         if kind in ('interp_dx', 'mmsc'):
-            for k, a in enumerate(answers):
-                if not close(f(impl['v'][k]), f(a['v']), tol, scale):
-                    return 'point %d: value %r vs model %r' % (k, f(impl['v'][k]), f(a['v']))
-                for j, (d, m) in enumerate(zip(impl['dx'][k], a['dx'])):
-                    if not close(f(d), f(m), tol, dscale):
-                        return 'point %d dim %d: d_dx %r vs dual-number model %r' % (k, j, f(d), f(m))
-                if a['dxc'] is not None:
-                    for j, (d, m) in enumerate(zip(impl['dx'][k], a['dxc'])):
+            evals = [(case['pts'], impl)] + list(zip(case.get('seq', []), impl.get('seq', [])))
+            it = iter(answers)
+            for step, (pts, r_) in enumerate(evals):
+                for k in range(len(pts)):
+                    a = next(it)
+                    tag = 'evaluation %d point %d' % (step, k)
+                    if not close(f(r_['v'][k]), f(a['v']), tol, scale):
+                        return '%s: value %r vs model %r' % (tag, f(r_['v'][k]), f(a['v']))
+                    for j, (d, m) in enumerate(zip(r_['dx'][k], a['dx'])):
                         if not close(f(d), f(m), tol, dscale):
-                            return 'point %d dim %d: d_dx %r vs code-formula model %r' % (k, j, f(d), f(m))
-                if kind == 'mmsc' and case['train_grad']:
-                    for e, (d, m) in enumerate(zip(impl['dv'][k], a['dv'])):
-                        if not close(f(d), f(m), 1e-8, max(1.0, abs(f(m)))):
-                            return 'point %d entry %d: d_dvalues %r vs model %r' % (k, e, f(d), f(m))
+                            return '%s dim %d: d_dx %r vs dual-number model %r' % (tag, j, f(d), f(m))
+                    if a['dxc'] is not None:
+                        for j, (d, m) in enumerate(zip(r_['dx'][k], a['dxc'])):
+                            if not close(f(d), f(m), tol, dscale):
+                                return '%s dim %d: d_dx %r vs code-formula model %r' % (tag, j, f(d), f(m))
+                    if kind == 'mmsc' and case['train_grad']:
+                        for e, (d, m) in enumerate(zip(r_['dv'][k], a['dv'])):
+                            if not close(f(d), f(m), 1e-8, max(1.0, abs(f(m)))):
+                                return '%s entry %d: d_dvalues %r vs model %r' % (tag, e, f(d), f(m))
         elif kind == 'train':
-            a = answers[0]
-            # outer product of the per-axis weights, row-major
-            w = [1.0]
-            for axis in a['w']:
-                w = [x * f(y) for x in w for y in axis]
-            for e, (d, m, mm) in enumerate(zip(impl['w'], w, a['dv'])):
-                if not close(f(d), m, 1e-8, max(1.0, abs(m))):
-                    return 'entry %d: training gradient %r vs unit-vector model %r' % (e, f(d), m)
-                if not close(f(d), f(mm), 1e-8, max(1.0, abs(m))):
-                    return 'entry %d: training gradient %r vs dual-number model %r' % (e, f(d), f(mm))
+            for step, (a, r_) in enumerate(zip(answers, [impl] + list(impl.get('more', [])))):
+                # outer product of the per-axis weights, row-major
+                w = [1.0]
+                for axis in a['w']:
+                    w = [x * f(y) for x in w for y in axis]
+                for e, (d, m, mm) in enumerate(zip(r_['w'], w, a['dv'])):
+                    if not close(f(d), m, 1e-8, max(1.0, abs(m))):
+                        return 'evaluation %d entry %d: training gradient %r vs unit-vector model %r' % (
+                            step, e, f(d), m)
+                    if not close(f(d), f(mm), 1e-8, max(1.0, abs(m))):
+                        return 'evaluation %d entry %d: training gradient %r vs dual-number model %r' % (
+                            step, e, f(d), f(mm))
         elif kind == 'spline':
             it = iter(answers)
             for v, row in enumerate(case['values']):
